@@ -89,6 +89,31 @@ def reldict(x, *args):
     return ['ok', [[k, [ref(t) for t in v]] for k, v in r[1].items()]]
 
 
+def elex(x):
+    """the lexicon an entity reports for itself (attributes only, no rowids)"""
+    r = call(x.lexicon)
+    if r[0] != 'ok':
+        return r
+    lx = r[1]
+    return ['ok', [lx.id, lx.version, lx.label, lx.language, lx.license, lx.email, lx.url, lx.citation, lx.logo]]
+
+
+def touch_everything():
+    """read-only calls on whatever is installed (default mode and restricted), results discarded: used between
+    modifications so that anything the library remembers across calls is exercised"""
+    try:
+        for x in wn.words():
+            x.lexicon()
+            for s_ in x.senses():
+                s_.examples(); s_.synset().senses(); s_.lexicon(); s_.synset().lexicon(); s_.synset().lexfile()
+                s_.frames()
+        for lx in wn.lexicons():
+            w = wn.Wordnet(lx.specifier())
+            w.synsets(); lx.extends(); lx.requires(); lx.extensions()
+    except Exception:
+        pass
+
+
 def obs_form(f):
     return [str(f), f.id, f.script, f._id,
             [[t.tag, t.category] for t in f.tags()],
@@ -96,7 +121,7 @@ def obs_form(f):
 
 
 def obs_word(w, deep=True):
-    o = {'ref': ref(w), 'id': w.id, 'pos': w.pos, 'lex': w._lexid,
+    o = {'ref': ref(w), 'id': w.id, 'pos': w.pos, 'lex': w._lexid, 'elex': elex(w),
          'forms': [obs_form(f) for f in w.forms()], 'lemma': str(w.lemma()),
          'senses': refs(call(w.senses)), 'synsets': refs(call(w.synsets)), 'meta': w.metadata() or None}
     if deep:
@@ -109,7 +134,7 @@ REL_ARGSETS_SYNSET = [[], ['hypernym'], ['hypernym', 'instance_hypernym'], ['sim
 
 
 def obs_sense(s, deep=True):
-    o = {'ref': ref(s), 'id': s.id, 'lex': s._lexid, 'word': refs(call(s.word)), 'synset': refs(call(s.synset)),
+    o = {'ref': ref(s), 'id': s.id, 'lex': s._lexid, 'elex': elex(s), 'word': refs(call(s.word)), 'synset': refs(call(s.synset)),
          'examples': s.examples(), 'lexicalized': s.lexicalized(), 'adjposition': s.adjposition(),
          'frames': s.frames(), 'counts': [[int(c), c.metadata() or None] for c in s.counts()],
          'meta': s.metadata() or None}
@@ -126,7 +151,7 @@ def obs_sense(s, deep=True):
 
 def obs_synset(y, deep=True):
     ili = call(lambda: y.ili)
-    o = {'ref': ref(y), 'id': y.id, 'pos': y.pos, 'lex': y._lexid,
+    o = {'ref': ref(y), 'id': y.id, 'pos': y.pos, 'lex': y._lexid, 'elex': elex(y),
          'ili': ['ok', ref(ili[1])] if ili[0] == 'ok' else ili,
          'definition': y.definition(), 'examples': y.examples(), 'senses': refs(call(y.senses)),
          'lexicalized': y.lexicalized(), 'lexfile': y.lexfile(), 'meta': y.metadata() or None,
